@@ -164,7 +164,11 @@ fn served_2xx_head(served: &[u8]) -> Option<usize> {
     let mut parts = line.split(|&b| b == b' ').filter(|p| !p.is_empty());
     let _ = parts.next()?;
     let code = parts.next()?;
+    // a status code is three digits (a numeral like +200 or 0200 is none)
     let code = std::str::from_utf8(code).ok()?.trim();
+    if code.len() != 3 || !code.bytes().all(|b| b.is_ascii_digit()) {
+        return None;
+    }
     let code: u16 = code.parse().ok()?;
     if (200..300).contains(&code) {
         Some(end)
@@ -439,6 +443,14 @@ fn cases(tier: Tier) -> Vec<Case> {
         let mut c = base(Origin::Domain, None, ProxyCred::None, Req::PostSecret, reply_head(status, b"", false), true);
         c.repeat = Some(b"no".to_vec());
         v.push(c);
+    }
+    // E: status numerals that are not status codes: never an agreement
+    for numeral in ["+200", "0200", "00204", "2000", "20", "2e2", "200.0", "-200"] {
+        for uniform in [None, Some(1usize)] {
+            let mut c = base(Origin::Domain, None, ProxyCred::None, Req::PostSecret, format!("HTTP/1.1 {numeral} Connection established\r\n\r\n").into_bytes(), false);
+            c.uniform = uniform;
+            v.push(c);
+        }
     }
     // D: reply heads with many field lines (a 407 of a real proxy easily has twenty): up to the request's
     // max_headers (100 by default) they are read like any other head
@@ -733,8 +745,74 @@ fn keep_open_refusals(ctx: &Ctx) -> u64 {
     n
 }
 
+/// The request's max_headers (set on the request or inherited from the session) is the limit for the
+/// proxy's reply head as well: a reply above it is refused as a malformed response (nothing is sent
+/// after the CONNECT), one below it is read (refusal reported / tunnel used).
+fn max_headers_cells(ctx: &Ctx) -> u64 {
+    let mut n = 0u64;
+    for (limit, fields) in [(3usize, 5usize), (3, 3), (150, 120), (150, 151), (100, 101)] {
+        for status in [200u16, 403] {
+            for on_session in [false, true] {
+                n += 1;
+                let mut w = format!("HTTP/1.1 {status} Some Reason\r\n").into_bytes();
+                for i in 0..fields - 1 {
+                    w.extend_from_slice(format!("X-Proxy-Info-{i}: v{i}\r\n").as_bytes());
+                }
+                w.extend_from_slice(b"Content-Length: 0\r\n\r\n");
+                let head_len = w.len();
+                let world = World::single(Script::plain(w), false);
+                let ps = attohttpc::ProxySettings::builder().https_proxy(url::Url::parse("http://p.test:3128").unwrap()).build();
+                let res = guarded(|| {
+                    let mut s = attohttpc::Session::new();
+                    if on_session {
+                        s.max_headers(limit);
+                    }
+                    let mut rb = s.get("https://o.test/x").proxy_settings(ps);
+                    if !on_session {
+                        rb = rb.max_headers(limit);
+                    }
+                    rb.send().map(|r| r.status().as_u16())
+                });
+                let written = world.written(0);
+                let connect_end = written.windows(4).position(|x| x == b"\r\n\r\n").map_or(written.len(), |p| p + 4);
+                let beyond = written.len() - connect_end;
+                let _ = head_len;
+                let desc = format!("max_headers({limit}) on the {}, CONNECT answered {status} with {fields} field lines", if on_session { "session" } else { "request" });
+                let replay = json!({"engine": "c12", "max_headers": true});
+                let over = fields > limit;
+                match res {
+                    Err(p) => ctx.violation("C12:panic", format!("{desc}: {p}"), replay, n),
+                    Ok(r) => {
+                        let kind = match &r {
+                            Ok(_) => "ok".to_string(),
+                            Err(e) => match e.kind() {
+                                attohttpc::ErrorKind::ConnectError { status_code, .. } => format!("connect-error-{}", status_code.as_u16()),
+                                k => format!("{k:?}").chars().take(60).collect(),
+                            },
+                        };
+                        if over {
+                            if kind.starts_with("connect-error") || kind == "ok" || beyond > 0 {
+                                ctx.violation("C12:reply-head-limit-not-applied", format!("{desc}: the reply head is above the limit, yet the outcome is {kind} and {beyond} bytes were written after the CONNECT"), replay, n);
+                            }
+                        } else if status == 403 {
+                            if kind != "connect-error-403" {
+                                ctx.violation("C12:refusal-status-lost", format!("{desc}: the reply head is within the limit, yet the outcome is {kind}"), replay, n);
+                            }
+                        } else if beyond == 0 {
+                            ctx.violation("C12:2xx-not-tunnelled", format!("{desc}: the reply head is within the limit, yet nothing was written into the tunnel (outcome {kind})"), replay, n);
+                        }
+                    }
+                }
+            }
+        }
+    }
+    n
+}
+
 pub fn c12(ctx: &Ctx) -> Report {
     let n_keep_open = keep_open_refusals(ctx);
+    let n_max_headers = max_headers_cells(ctx);
+    ctx.count("reply_head_limit_cells", n_max_headers);
     ctx.count("keep_open_refusal_cases", n_keep_open);
     let cs = cases(ctx.tier);
     let n = cs.len() as u64;
